@@ -2,8 +2,9 @@
 (***************************************************************************)
 (* Validation of behaviour recorded from the real lena selectors on        *)
 (* specifications and values beyond the exhaustive bounds.  Records:       *)
-(*   [op |-> "sel", ast, val, res]     res in "T", "F", "E" (raised)       *)
-(*   [op |-> "filter", ast, flow, out, raised]   Filter(ast).run(flow)     *)
+(*   [op |-> "sel", ast, val, res]     res: "T", "F" or the class of the   *)
+(*                                     exception that reached the caller   *)
+(*   [op |-> "filter", ast, flow, out, raised, exc]  Filter(ast).run(flow) *)
 (* Specifications outside the statement (WellFormed, Defined in            *)
 (* SelectorsSem.tla) are not constrained.                                  *)
 (***************************************************************************)
@@ -15,7 +16,8 @@ SelOk(r) == Inside(r.ast, r.val) => r.res = Eval(r.ast, r.val)
 IsPre(a, b) == Len(a) <= Len(b) /\ a = SubSeq(b, 1, Len(a))
 FilterOk(r) == (\A j \in 1..Len(r.flow) : Inside(r.ast, r.flow[j])) =>
                  LET e == FilterSem(r.ast, r.flow) IN
-                 IF e.raised THEN IsPre(e.out, r.out)          \* what happens after the exception is not fixed
+                 \* the selector's exception reaches the caller of Filter.run; what was yielded before it is exact
+                 IF e.raised THEN IsPre(e.out, r.out) /\ r.raised /\ r.exc = e.exc
                  ELSE r.out = e.out /\ ~r.raised
 Ok(r) == IF r.op = "sel" THEN SelOk(r) ELSE FilterOk(r)
 Init == i = 1
